@@ -154,7 +154,39 @@ func runList(dir string, focus string, env *execEnv, caseStr string) (res *Sx, v
 		}
 		r.Add(x)
 	}
+	if wd, perr := ParseWorldOfCase(caseStr); perr == nil {
+		viols = append(viols, checkBlockedWarningsName(ca, wd, caseStr)...)
+	}
 	return r, viols
+}
+
+var blockedFullRe = regexp.MustCompile(`^(\S+) resource (\S+) specified workload ([^/\s]+)/\S+ as a backend, but network policies are blocking`)
+
+// checkBlockedWarningsName (C10: "a warning names the blocked backend"): the resource a blocked-ingress warning names is an
+// Ingress / Route of the input, of the kind the text says, in the namespace of the workload
+func checkBlockedWarningsName(ca *connlist.ConnlistAnalyzer, w *World, caseStr string) []Violation {
+	var v []Violation
+	for _, e := range ca.Errors() {
+		m := blockedFullRe.FindStringSubmatch(e.Error().Error())
+		if m == nil {
+			continue
+		}
+		kind, obj, ns := m[1], m[2], m[3]
+		found := false
+		for _, o := range w.Objs {
+			switch {
+			case o.Kind == "ing" && kind == "K8s-Ingress" && o.Ing.NS == ns && (obj == o.Ing.NS+"/"+o.Ing.Name || obj == o.Ing.Name):
+				found = true
+			case o.Kind == "route" && kind == "Route" && o.Route.NS == ns && (obj == o.Route.NS+"/"+o.Route.Name || obj == o.Route.Name):
+				found = true
+			}
+		}
+		if !found {
+			v = append(v, Violation{Prop: "C10", Kind: "blocked-warning-names-no-such-resource", Detail: "the warning names " + kind + " " + obj + " for a workload of namespace " + ns + ": the input holds no such resource there: " + e.Error().Error()[:min(200, len(e.Error().Error()))], Case: caseStr})
+			break
+		}
+	}
+	return v
 }
 
 func init() {
